@@ -382,6 +382,7 @@ def c05(run):
             raise Infra("race report inside the harness only:\n" + rep[:2000])
     elif p.returncode != 0:
         raise Infra("race-enabled harness failed rc=%s: %s" % (p.returncode, p.stderr[-2000:]))
+    run.nondeterministic = True   # free-running schedules: a rejected round is re-run up to three times
     fails, ncases, nev = run.validate("ConcurrentTrace", TRACE_CFG % "", trace, label="cc_stress")
     run.account(trace, ncases, 1)
     run.judge("cc_stress", "conc", fails, trace, "ConcurrentTrace", TRACE_CFG % "", [])
